@@ -27,7 +27,6 @@ CONSTANTS
   SwHoldDuringBody,   \* F2: the checker keeps its function marked while the body runs
   SwInitNested,       \* F4: every __init__ wrapper marks, checks all invariants and discards (not only the outermost)
   SwShareSet,         \* F3: a context copied from a parent that already ran contracted code aliases the parent's set
-  SwNewNoMarker,      \* F14: the __new__ wrapper evaluates invariants without marking the instance
   SwFutureNotAwaited, \* F13: an awaitable that is not a coroutine object is judged without being awaited
   AsyncSched          \* TRUE: tasks are asyncio-like (switch only at suspension points); FALSE: thread-like
 
@@ -101,6 +100,9 @@ ErrClsOf(c) == CASE CON(c).err = "default"    -> "Violation"
                  [] CON(c).err = "factory"    -> "ErrFact"
                  [] CON(c).err = "badfactory" -> "TypeError"
 ErrorOf(c)  == Raise(ErrClsOf(c), c)
+ConsOfFn(f) == UNION {{FN(f).pre[g][i] : i \in DOMAIN FN(f).pre[g]} : g \in DOMAIN FN(f).pre}
+               \cup {FN(f).post[j] : j \in DOMAIN FN(f).post}
+FnOfCon(c)  == CHOOSE f \in DOMAIN prog.fn : c \in ConsOfFn(f)
 
 (* The only calls that may go unchecked (C10): a function key is suspended   *)
 (* while a non-re-entrant checker frame of that function further down the    *)
@@ -111,7 +113,7 @@ ContractPc == {"pre", "snap", "post"}
 ShouldSkipFn(st, f) ==
   \E n \in DOMAIN st : st[n].k = "chk" /\ st[n].f = f /\ ~st[n].skip /\ st[n].pc \in ContractPc
 ShouldSkipObj(st, o) ==
-  \E n \in DOMAIN st : st[n].k \in {"inv", "init", "new"} /\ st[n].o = o /\ ~st[n].skip /\ st[n].pc # "enter"
+  \E n \in DOMAIN st : st[n].k \in {"inv", "init"} /\ st[n].o = o /\ ~st[n].skip /\ st[n].pc # "enter"
 
 -----------------------------------------------------------------------------
 (* In-progress state (the ContextVar holding a mutable set).                *)
@@ -165,7 +167,7 @@ CallInner(t, fr) ==
 
 \* leave a wrapper frame: remember the outcome, go to the exit pc (marker is restored there)
 Leave(t, fr, out) ==
-  /\ SetTop(t, [fr EXCEPT !.pc = "exit", !.exc = out, !.sub = ""])
+  /\ SetTop(t, [fr EXCEPT !.pc = "exit", !.exc = out, !.sub = "", !.ph = IF fr.pc = "bodycall" THEN "body" ELSE fr.pc])
   /\ reg' = [reg EXCEPT ![t] = NoOut]
   /\ Silent /\ Unch_ip /\ Unch_misc
 
@@ -185,16 +187,19 @@ RoleOf(ph) == IF IsInvPhase(ph) THEN "inv" ELSE ph
 \* arguments visible to a condition / error factory
 OldOf(fr, ph) == IF ph = "post" THEN fr.old ELSE <<>>
 ResOf(fr, ph) == IF ph = "post" THEN fr.res ELSE 0
+AOf(fr, ph)   == IF IsInvPhase(ph) THEN 0 ELSE fr.a        \* invariants see only the instance
+OOf(fr)       == IF FN(fr.f).kind \in {"func", "static", "class", "new"} THEN 0 ELSE fr.o   \* no `self` parameter
+OOfPh(fr, ph) == IF IsInvPhase(ph) THEN fr.o ELSE OOf(fr)
 
 \* start evaluating contract c in phase ph (fr.sub = "")
 EvalCond(t, fr, c, ph) ==
   IF ~FN(fr.f).async /\ CON(c).rv = "corofn" /\ ~IsInvPhase(ph)
     THEN \* coroutine-function condition on a sync callable: ValueError, the condition is not called
          Leave(t, fr, Raise("ValueError", c))
-    ELSE /\ PushOn(t, [fr EXCEPT !.c = c, !.sub = "wait"], UsrFrame("cond", c, fr.o, fr.a, RoleOf(ph), nx + 1, fr.f))
+    ELSE /\ PushOn(t, [fr EXCEPT !.c = c, !.sub = "wait"], UsrFrame("cond", c, OOfPh(fr, ph), AOf(fr, ph), RoleOf(ph), nx + 1, fr.f))
          /\ reg' = [reg EXCEPT ![t] = NoOut]
          /\ nx' = nx + 1
-         /\ Emit(Ev("cond.in", t, c, fr.o, fr.a, 0, "", OldOf(fr, ph), ResOf(fr, ph), ph, FALSE))
+         /\ Emit(Ev("cond.in", t, c, OOfPh(fr, ph), AOf(fr, ph), 0, "", OldOf(fr, ph), ResOf(fr, ph), ph, FALSE))
          /\ Unch_ip /\ UNCHANGED <<prog, ost, status, ns>>
 
 \* the error of contract fr.c is `err`: preconditions remember it and try the next group; the others raise it
@@ -228,27 +233,28 @@ CondPhase(t, fr, ph, L, next) ==
          (CASE CON(c).err \in {"default", "class"} ->
                 IF CON(c).lam
                   THEN \* the message generator re-evaluates a lambda condition once
-                       /\ PushOn(t, [fr EXCEPT !.sub = "reeval"], UsrFrame("cond", c, fr.o, fr.a, RoleOf(ph), nx + 1, fr.f))
+                       /\ PushOn(t, [fr EXCEPT !.sub = "reeval"], UsrFrame("cond", c, OOfPh(fr, ph), AOf(fr, ph), RoleOf(ph), nx + 1, fr.f))
                        /\ reg' = [reg EXCEPT ![t] = NoOut]
                        /\ nx' = nx + 1
-                       /\ Emit(Ev("cond.in", t, c, fr.o, fr.a, 0, "", OldOf(fr, ph), ResOf(fr, ph), "reeval", FALSE))
+                       /\ Emit(Ev("cond.in", t, c, OOfPh(fr, ph), AOf(fr, ph), 0, "", OldOf(fr, ph), ResOf(fr, ph), "reeval", FALSE))
                        /\ Unch_ip /\ UNCHANGED <<prog, ost, status, ns>>
                   ELSE ErrDone(t, fr, ph, ErrorOf(c))
            [] CON(c).err = "inst" -> ErrDone(t, fr, ph, ErrorOf(c))
            [] CON(c).err \in {"factory", "badfactory"} ->
-                /\ PushOn(t, [fr EXCEPT !.sub = "fact"], UsrFrame("errf", c, fr.o, fr.a, RoleOf(ph), nx + 1, fr.f))
+                /\ PushOn(t, [fr EXCEPT !.sub = "fact"], UsrFrame("errf", c, OOfPh(fr, ph), AOf(fr, ph), RoleOf(ph), nx + 1, fr.f))
                 /\ reg' = [reg EXCEPT ![t] = NoOut]
                 /\ nx' = nx + 1
-                /\ Emit(Ev("errf.in", t, c, fr.o, fr.a, 0, "", OldOf(fr, ph), ResOf(fr, ph), ph, FALSE))
+                /\ Emit(Ev("errf.in", t, c, OOfPh(fr, ph), AOf(fr, ph), 0, "", OldOf(fr, ph), ResOf(fr, ph), ph, FALSE))
                 /\ Unch_ip /\ UNCHANGED <<prog, ost, status, ns>>)
     [] fr.sub = "reeval" ->
          IF r.k = "raise"
            THEN IF r.cls = "Exception"
-                  THEN ErrDone(t, fr, ph, Raise("RuntimeError", fr.c))   \* "Failed to recompute", chained
+                  THEN Leave(t, fr, Raise("RuntimeError", fr.c))         \* "Failed to recompute", chained
                   ELSE Leave(t, fr, r)                                  \* BaseException passes through
            ELSE ErrDone(t, fr, ph, ErrorOf(fr.c))
     [] fr.sub = "fact" ->
          IF r.k = "raise" THEN Leave(t, fr, r)
+         ELSE IF r.v = 0 THEN Leave(t, fr, Raise("TypeError", fr.c))     \* the factory returned a non-exception
          ELSE ErrDone(t, fr, ph, ErrorOf(fr.c))
 
 -----------------------------------------------------------------------------
@@ -283,10 +289,10 @@ ChkStep(t) ==
          ELSE IF fr.sub = ""
            THEN IF ~FN(f).async /\ SNP(S[fr.i]).rv = "corofn"
                   THEN Leave(t, fr, Raise("ValueError", S[fr.i]))
-                  ELSE /\ PushOn(t, [fr EXCEPT !.sub = "wait"], UsrFrame("cap", S[fr.i], fr.o, fr.a, "", nx + 1, fr.f))
+                  ELSE /\ PushOn(t, [fr EXCEPT !.sub = "wait"], UsrFrame("cap", S[fr.i], OOf(fr), fr.a, "", nx + 1, fr.f))
                        /\ reg' = [reg EXCEPT ![t] = NoOut]
                        /\ nx' = nx + 1
-                       /\ Emit(Ev("cap.in", t, S[fr.i], fr.o, fr.a, 0, "", <<>>, 0, "snap", FALSE))
+                       /\ Emit(Ev("cap.in", t, S[fr.i], OOf(fr), fr.a, 0, "", <<>>, 0, "snap", FALSE))
                        /\ Unch_ip /\ UNCHANGED <<prog, ost, status, ns>>
          ELSE \* capture returned
               IF r.k = "raise" THEN Leave(t, fr, r)
@@ -375,9 +381,9 @@ NewStep(t) ==
     [] fr.pc = "bodycall" ->
          IF r.k = "none" THEN CallInner(t, fr)
          ELSE IF r.k = "raise" THEN Leave(t, fr, r)
-         ELSE /\ SetTop(t, [fr EXCEPT !.pc = "after", !.res = r.v, !.i = 1, !.sub = "", !.mk = ~SwNewNoMarker])
-              /\ IF SwNewNoMarker THEN Unch_ip ELSE Mark(t, OKey(o))
-              /\ reg' = [reg EXCEPT ![t] = NoOut] /\ Silent /\ Unch_misc
+         ELSE \* the instance is NOT marked: a public method called by an invariant is checked by its own
+              \* wrapper (which marks), so the evaluation terminates; the property permits checking more
+              Goto(t, [fr EXCEPT !.pc = "after", !.res = r.v, !.i = 1, !.sub = ""])
     [] fr.pc = "after" ->
          CondPhase(t, fr, "after", InvAll(o), [fr EXCEPT !.pc = "exit", !.exc = Ret(fr.res), !.sub = ""])
     [] fr.pc = "exit" ->
@@ -408,7 +414,7 @@ OutName(fr) == CASE fr.u = "body" -> "body.out" [] fr.u = "cond" -> "cond.out"
 
 \* the value a user callable produces when its script is finished
 Produce(fr) ==
-  CASE fr.u = "body" -> FN(fr.f).out[fr.a]
+  CASE fr.u = "body" -> FN(fr.f).out[fr.a + 1]
     [] fr.u = "cond" ->
          IF CON(fr.f).rv = "coro" /\ ~FN(fr.g).async THEN Ret(2) ELSE
          IF CON(fr.f).rv = "badbool" THEN Ret(3) ELSE
@@ -449,19 +455,23 @@ UsrStep(t) ==
        /\ Unch_ip /\ Unch_misc
   ELSE IF fr.pos <= Len(sc) THEN
        LET op == sc[fr.pos] nfr == [fr EXCEPT !.pos = fr.pos + 1, !.pc = "run", !.c = op.f] IN
-       CASE op.op = "call" ->
+       CASE op.when \notin {0, fr.a} ->
+              \* an operation guarded by the argument of this activation: not taken
+              /\ SetTop(t, [fr EXCEPT !.pos = fr.pos + 1, !.pc = "run"])
+              /\ reg' = [reg EXCEPT ![t] = NoOut] /\ Silent /\ Unch_ip /\ Unch_misc
+         [] op.when \in {0, fr.a} /\ op.op = "call" ->
               /\ PushOn(t, nfr, Frame("call", "", op.f, op.o, op.a, 0, ""))
               /\ reg' = [reg EXCEPT ![t] = NoOut]
               /\ Emit(Ev("call", t, op.f, op.o, op.a, 0, "", <<>>, 0, fr.u, FALSE))
               /\ Unch_ip /\ Unch_misc
-         [] op.op = "await" ->
+         [] op.when \in {0, fr.a} /\ op.op = "await" ->
               /\ SetTop(t, [nfr EXCEPT !.pc = IF prog.fault.at = -1 /\ prog.fault.n = ns + 1 THEN "susp!" ELSE "run"])
               /\ reg' = [reg EXCEPT ![t] = NoOut]
               /\ status' = [status EXCEPT ![t] = "susp"]
               /\ ns' = ns + 1
               /\ Emit(Ev("susp", t, fr.f, 0, 0, 0, "", <<>>, 0, fr.u, FALSE))
               /\ Unch_ip /\ UNCHANGED <<prog, ost, nx>>
-         [] op.op = "spawn" ->
+         [] op.when \in {0, fr.a} /\ op.op = "spawn" ->
               \* start task op.f; op.a = 1: its context is a copy of this task's context, 0: a fresh context
               /\ stack' = [stack EXCEPT ![t] = [@ EXCEPT ![Len(@)] = nfr],
                                         ![op.f] = <<UsrFrame("drv", op.f, 0, 0, "", 0, 0)>>]
@@ -516,9 +526,9 @@ Step(t) ==
 \* the k-th suspension (k = prog.fault.n) is answered by throwing prog.fault.kind into the task
 \* (cancellation / close) if the fault plan says so (at = -1); every other one is resumed
 Sched(t) ==
-  /\ busy = 0
+  /\ busy = 0 /\ status[t] = "susp"
   /\ IF prog.fault.at = -1 /\ Top(t).pc = "susp!" THEN Throw(t, prog.fault.kind) ELSE Resume(t)
-  /\ busy' = 0
+  /\ busy' = IF AsyncSched THEN t ELSE 0
 
 Next == \E t \in Tasks : Step(t) \/ Sched(t)
 
@@ -535,6 +545,17 @@ InitOf(p) ==
   /\ ns = 0
   /\ emit = NoEv
   /\ log = <<>>
+
+\* the same, as an action (the trace specification validates many programs in one run)
+InitNext(p) ==
+  /\ prog' = p
+  /\ stack' = [t \in DOMAIN p.drv |-> IF t = 1 THEN <<UsrFrame("drv", 1, 0, 0, "", 0, 0)>> ELSE <<>>]
+  /\ reg' = [t \in DOMAIN p.drv |-> NoOut]
+  /\ status' = [t \in DOMAIN p.drv |-> IF t = 1 THEN "ready" ELSE "idle"]
+  /\ cv' = [t \in DOMAIN p.drv |-> 0]
+  /\ ips' = [t \in DOMAIN p.drv |-> {}]
+  /\ ost' = [o \in DOMAIN p.obj |-> p.obj[o].st0]
+  /\ busy' = 0 /\ nx' = 0 /\ ns' = 0 /\ emit' = NoEv /\ log' = <<>>
 
 Init == \E p \in ProgSpace : InitOf(p)
 
